@@ -791,6 +791,26 @@ def m_point(rng, w):
     return f"{p}.{k}"
 
 
+def m_bad_index(rng, w):
+    """an index outside the collection (negative ones included where the collection documents 0..len-1): the lookup must
+    be refused, or - where negative indexes are legal - deliver an object that can be used like any other"""
+    se, p = w.pick(rng, "series")
+    if not hasattr(se, "points"):
+        raise Skip("series without points")
+    n = len(se.points)
+    i = rng.choice([-1, -n, -n - 1, n, n + 5])
+    pt = se.points[i]                      # IndexError here is a rejected call
+    k = rng.choice(["format", "marker", "label"])
+    if k == "format":
+        pt.format.fill.solid()
+    elif k == "marker":
+        pt.marker.size = 7
+    else:
+        from pptx.enum.chart import XL_LABEL_POSITION
+        pt.data_label.position = XL_LABEL_POSITION.CENTER
+    return f"{p}.points[{i}].{k}"
+
+
 def m_replace_data(rng, w):
     from harness import chartlab as lab
     c, p = w.pick(rng, "chart")
@@ -816,7 +836,7 @@ METHODS = [
     (m_add_slide, 3), (m_add_shape, 5), (m_add_textbox, 3), (m_add_picture, 3), (m_add_connector, 3), (m_connect, 2), (m_add_group, 3),
     (m_freeform, 2), (m_add_table, 3), (m_add_chart, 4), (m_add_movie, 1), (m_add_ole, 1), (m_ph_insert, 2), (m_adjust, 2), (m_fill, 5),
     (m_bg, 2), (m_line_color, 2), (m_font_color, 3), (m_tf, 4), (m_para, 5), (m_action, 2), (m_merge, 3), (m_notes, 2), (m_chart_text, 5),
-    (m_chart_format, 3), (m_point, 2), (m_replace_data, 2),
+    (m_chart_format, 3), (m_point, 2), (m_replace_data, 2), (m_bad_index, 2),
 ]
 
 _props = None
